@@ -271,6 +271,11 @@ let handle () =
      let rdm rows cols = rep rows (fun () -> rep cols nz) in
      let nm = rdm n n in let rm = rdm n n in let wm = rdm r n in
      emit (sb (m_check_cert (nat_of_int n) (nat_of_int r) k c nm rm wm))
+   | "COMM4" ->
+     let norb = nnat () in
+     let es = nentries () in
+     let x = nvec () in let y = nvec () in
+     List.iter (fun c -> emit (sgz c)) (m_comm4 norb es x y)
    | "INNER" ->
      let norb = nnat () in let x = nvec () in let y = nvec () in
      emit (sgz (m_inner norb x y))
